@@ -8,6 +8,7 @@ import (
 	"os"
 	"path/filepath"
 	"sort"
+	"strings"
 )
 
 type gen struct {
@@ -31,6 +32,7 @@ func main() {
 	for _, n := range os.Args[3:] {
 		only[n] = true
 	}
+	failed := 0
 	sort.Slice(gens, func(i, j int) bool { return gens[i].name < gens[j].name })
 	for _, g := range gens {
 		if len(only) > 0 && !only[g.name] {
@@ -38,8 +40,16 @@ func main() {
 		}
 		s, err := g.fn(repo)
 		if err != nil {
+			// The source no longer has the shape this generator understands. That must not stop the
+			// other generators (every property depends only on its own Gen files): emit a file that
+			// does NOT compile, so exactly the theorems stated over this table stop checking and the
+			// owning check goes on to search for a concrete failing input (or reports
+			// no-failing-input-found naming this obligation).
 			fmt.Fprintf(os.Stderr, "trans: %s: %v\n", g.name, err)
-			os.Exit(1)
+			failed++
+			msg := strings.ReplaceAll(strings.ReplaceAll(err.Error(), "*)", "* )"), "\n", " ")
+			s = "(* GENERATION FAILED - the tie to the source is broken: " + msg + " *)\n" +
+				"Definition generation_of_" + strings.TrimSuffix(g.name, ".v") + "_failed : False := I.\n"
 		}
 		p := filepath.Join(out, g.name)
 		// write only if changed, so that make does not rebuild needlessly
@@ -50,5 +60,8 @@ func main() {
 			fmt.Fprintln(os.Stderr, err)
 			os.Exit(1)
 		}
+	}
+	if failed > 0 {
+		fmt.Fprintf(os.Stderr, "trans: %d generator(s) failed; their Gen files were written as non-compiling stubs\n", failed)
 	}
 }
